@@ -3301,7 +3301,7 @@ class x86_mn(x86_mn_base):
 
             else:
                 swap_args = c.modifs[sw]
-                if name == 'mov#d#' and prefix == [0xF3]:
+                if name == 'mov#d#' and 0xF3 in prefix:
                     swap_args = not swap_args
                     if swap_args: continue
                 if len(args_sample)!=2:
